@@ -407,6 +407,9 @@ func ParseMemberExpr(p *ParserZH) syntax.Expression {
 		if match, tk := p.tryConsume(TypeIdentifier); match {
 			id := newID(p, tk)
 			p.setStmtCurrentLine(id, tk)
+			// the member expression itself stands on the line of its member name (it used to
+			// keep line 0: an error of the statement 「A之不存在」 was reported at line 1)
+			p.setStmtCurrentLine(memberExpr, tk)
 			memberExpr.MemberType = syntax.MemberID
 			memberExpr.MemberID = id
 
